@@ -591,6 +591,94 @@ theorem sync_index_outer (m : Option Dir) (ch : Option How) (tag : Tag) (kids : 
       exact ⟨s, f, hl, by rw [e]; exact ht⟩
     · rintro ⟨s, f, hl, ht⟩; exact ⟨f.idx, (hmem _).mpr ⟨s, f, hl, rfl⟩, ht⟩
 
+/-! ### left / right join over a nested container: the index of the FIRST / LAST timeseries in depth-first order -/
+
+theorem tsIndexes_append (a b : List Leaf) : tsIndexes (a ++ b) = tsIndexes a ++ tsIndexes b := by
+  simp [tsIndexes, List.filterMap_append]
+
+theorem tsIndexes_none (pre : List Leaf) (h : ∀ l ∈ pre, ∀ s f, l ≠ .ts s f) : tsIndexes pre = [] := by
+  simp only [tsIndexes, List.filterMap_eq_nil_iff]
+  intro l hl
+  cases l with
+  | ts s f => exact absurd rfl (h _ hl s f)
+  | arr _ => rfl
+  | other _ => rfl
+
+/-- `'lj'`: every timeseries of the result carries the index of the FIRST timeseries met when the members (at any depth,
+list / dict order) are read from the left - bare arrays and other objects before it do not count -/
+theorem sync_index_left (m : Option Dir) (ch : Option How) (tag : Tag) (kids : List (String × Tree)) (t' : Tree)
+    (hf : kidsTupleFree kids = true) (pre post : List Leaf) (s0 : Bool) (f0 : Frame)
+    (hsplit : (Tree.node tag kids).leaves = pre ++ .ts s0 f0 :: post) (hpre : ∀ l ∈ pre, ∀ s f, l ≠ .ts s f)
+    (h : sync .left m ch (.node tag kids) = .ok t') :
+    ∀ l ∈ t'.leaves, ∀ s f, l = .ts s f → f.idx = f0.idx := by
+  have hix : dfIndex .left (Tree.node tag kids).flatTop = .times f0.idx := by
+    rw [flatTop_covers tag kids hf, hsplit]
+    have e : tsIndexes (pre ++ Leaf.ts s0 f0 :: post) = f0.idx :: tsIndexes post := by
+      rw [tsIndexes_append, tsIndexes_none pre hpre]; rfl
+    simp only [dfIndex, e, joinIndex]
+  exact sync_common_index .left m ch tag kids t' f0.idx hix h
+
+/-- `'rj'`: ... the index of the LAST timeseries -/
+theorem sync_index_right (m : Option Dir) (ch : Option How) (tag : Tag) (kids : List (String × Tree)) (t' : Tree)
+    (hf : kidsTupleFree kids = true) (pre post : List Leaf) (s0 : Bool) (f0 : Frame)
+    (hsplit : (Tree.node tag kids).leaves = pre ++ .ts s0 f0 :: post) (hpost : ∀ l ∈ post, ∀ s f, l ≠ .ts s f)
+    (h : sync .right m ch (.node tag kids) = .ok t') :
+    ∀ l ∈ t'.leaves, ∀ s f, l = .ts s f → f.idx = f0.idx := by
+  have hix : dfIndex .right (Tree.node tag kids).flatTop = .times f0.idx := by
+    rw [flatTop_covers tag kids hf, hsplit]
+    have e : tsIndexes (pre ++ Leaf.ts s0 f0 :: post) = tsIndexes pre ++ [f0.idx] := by
+      rw [tsIndexes_append]
+      show tsIndexes pre ++ tsIndexes ([Leaf.ts s0 f0] ++ post) = _
+      rw [tsIndexes_append, tsIndexes_none post hpost]; simp [tsIndexes]
+    simp only [dfIndex, e]
+    cases hp : tsIndexes pre with
+    | nil => simp [joinIndex]
+    | cons i0 is =>
+      have hl : (i0 :: (is ++ [f0.idx])).getLast? = some f0.idx := by
+        rw [← List.cons_append, List.getLast?_concat]
+      simp [joinIndex, List.getLastD_eq_getLast?, hl]
+  exact sync_common_index .right m ch tag kids t' f0.idx hix h
+
+/-! ### a container of bare arrays only: the joint LENGTH is taken over every array, each array aligned at the end -/
+
+/-- **sync_arrays**: no timeseries anywhere in a tuple-free container holding arrays - the joint length `n` is the
+inner / outer / left / right join of the lengths of ALL arrays at any depth (`joinLen`; `arr_len_inner/outer/left`: min / max /
+first), and member `k` of the result is array `k` aligned AT THE END to `n` (`arr_align`) and then, if a fill method is given,
+filled (`fillnaArr` of C12).  No assumed index (`sync_member_arr` took `dfIndex .. = .len n` as a hypothesis), any method. -/
+theorem sync_arrays (how : How) (m : Option Dir) (ch : Option How) (tag : Tag) (kids : List (String × Tree)) (t' : Tree)
+    (hf : kidsTupleFree kids = true) (hts : tsIndexes (Tree.node tag kids).leaves = [])
+    (n : Nat) (hn : joinLen how (arrLens (Tree.node tag kids).leaves) = some n)
+    (h : sync how m ch (.node tag kids) = .ok t') (k : Nat) (xs : Col)
+    (hk : (Tree.node tag kids).leaves[k]? = some (.arr xs)) :
+    ∃ c, fillnaArr (fillMethods m) Option.none [alignArr n xs] = .ok [c] ∧ t'.leaves[k]? = some (.arr c) := by
+  have hix : dfIndex how (Tree.node tag kids).flatTop = .len n := by
+    rw [flatTop_covers tag kids hf]; simp [dfIndex, hts, joinIndex, hn]
+  obtain ⟨_, hp⟩ := sync_pointwise how m ch tag kids t' h
+  obtain ⟨l1, l', h1, h2, h3⟩ := hp k _ hk
+  rw [hix] at h1
+  simp only [reindexLeaf] at h1
+  split at h1
+  · rename_i c hc
+    cases h1
+    refine ⟨c, hc, ?_⟩
+    cases ch with
+    | none => simp [colPass] at h2; rw [h3, h2]
+    | some c' => simp [colPass, recolumnLeaf] at h2; rw [h3, ← h2]
+  · cases h1
+  · cases h1
+
+/-- without a fill method that is the aligned array itself; with `'ffill'` / `'bfill'` the aligned array forward / backward
+filled BY POSITION (the NaN padding in front stays NaN under ffill, is filled from the first value under bfill) -/
+theorem sync_arrays_value (m : Option Dir) (n : Nat) (xs : Col) :
+    fillnaArr (fillMethods m) Option.none [alignArr n xs] =
+      .ok [match m with | Option.none => alignArr n xs | some .ffill => Fill.ffill Option.none (alignArr n xs)
+                        | some .bfill => Fill.bfill Option.none (alignArr n xs)] := by
+  cases m with
+  | none => rfl
+  | some d =>
+    cases d <;>
+      simp [fillMethods, fillnaArr, fillna, List.foldlM, step, limOk, Frame.mapCols, Frame.vals, ofArr, Except.map, bind, Except.bind, pure, Except.pure]
+
 /-! ### an explicit index as join policy; keyword arguments of a presync-decorated function -/
 
 /-- with a policy word `syncJ` is `sync`: all theorems above apply -/
@@ -1165,5 +1253,34 @@ example : let s1 : Frame := { idx := [0, 4], cols := [("", [some 1, some 3])] }
      | _ => []) =
       [some { idx := [2, 4, 6], cols := [("", [Option.none, some 3, Option.none])] }, some s2] := by
   decide
+/-- `sync_arrays` / `sync_arrays_value`: a nested, tuple-free container of bare arrays of lengths 3, 1, 2 (one inside a dict) and a
+string: the hypotheses hold; outer join = length 3, every array NaN-padded in front, `'bfill'` fills the padding, inner join = length 1 -/
+example : let t : Tree := .node .list [("", .leaf (.arr [some 1, Option.none, some 3])),
+                                       ("", .node .dict [("k", .leaf (.arr [some 5])), ("j", .leaf (.other (.cell (.int 7))))]),
+                                       ("", .leaf (.arr [some 8, some 9]))]
+    kidsTupleFree (match t with | .node _ ks => ks | _ => []) = true ∧ tsIndexes t.leaves = [] ∧
+    joinLen .outer (arrLens t.leaves) = some 3 ∧ joinLen .inner (arrLens t.leaves) = some 1 ∧
+    (match sync .outer (some .bfill) Option.none t with
+     | .ok t' => t'.leaves.map fun l => match l with | .arr c => some c | _ => Option.none
+     | .error _ => []) =
+      [some [some 1, some 3, some 3], some [some 5, some 5, some 5], Option.none, some [some 8, some 8, some 9]] ∧
+    (match sync .inner Option.none Option.none t with
+     | .ok t' => t'.leaves.map fun l => match l with | .arr c => some c | _ => Option.none
+     | .error _ => []) = [some [some 3], some [some 5], Option.none, some [some 9]] := by
+  decide
+/-- `sync_index_left` / `sync_index_right`: the first timeseries in depth-first order sits inside a dict behind a string and an array
+is not counted; `'lj'` puts everything on ITS index, `'rj'` on the last one's -/
+example : let s1 : Frame := { idx := [1, 2, 4], cols := [("", [some 1, Option.none, some 3])] }
+    let s2 : Frame := { idx := [2, 3], cols := [("", [some 5, some 6])] }
+    let t : Tree := .node .list [("", .leaf (.other (.cell (.int 7)))), ("", .node .dict [("k", .leaf (.ts true s1))]), ("", .leaf (.ts true s2))]
+    kidsTupleFree (match t with | .node _ ks => ks | _ => []) = true ∧
+    t.leaves = [.other (.cell (.int 7))] ++ .ts true s1 :: [.ts true s2] ∧
+    (match sync .left Option.none Option.none t with
+     | .ok t' => t'.leaves.map fun l => match l with | .ts _ f => some f.idx | _ => Option.none
+     | .error _ => []) = [Option.none, some [1, 2, 4], some [1, 2, 4]] ∧
+    (match sync .right Option.none Option.none t with
+     | .ok t' => t'.leaves.map fun l => match l with | .ts _ f => some f.idx | _ => Option.none
+     | .error _ => []) = [Option.none, some [2, 3], some [2, 3]] := by
+  refine ⟨by decide, rfl, by decide, by decide⟩
 
 end Pyg.Props.C03
